@@ -22,6 +22,9 @@ def _vectors_small(B, rng, quick):
                 vs.append((o, [a, b]))
     for _ in range(150 if quick else 3000):
         vs.append((rng.choice(offs), [rng.choice(fam + L[:20]) for _ in range(rng.randint(3, 5))]))
+    # records spanning three and more blocks, with neighbours (for the lost-block reads)
+    for _ in range(60 if quick else 600):
+        vs.append((rng.choice([0, 0, 8, B - 1]), [rng.choice([0, 3, B]), rng.randint(3 * B, 6 * B), rng.choice([1, B - H, 2 * B + 3]), rng.randint(2 * B, 4 * B)]))
     return vs
 
 
@@ -114,6 +117,14 @@ def logfmt_campaign(prop, out, B, vectors, cfg, quick, rng, stats, label):
                 x = rng.choice([1, 0x80, 0xff])
                 kf = 1 if (cls == 'type' and r['len'] == 0 and (r['type'] ^ x) == 0) else 0
                 tests.append((idx, 'flip', pos, x, i + 1, cls, kf))
+        # a whole interior block reads back as zeros (a lost block): records with a fragment in it are dropped as a whole - and
+        # reported, when the block interrupts a fragmented record; nothing is glued together from the fragments around it
+        nblk = (len(data) + B - 1) // B
+        if nblk >= 3 and (not quick or idx % 2 == 0):
+            inner = [b for b in range(1, nblk - 1) if any(r['off'] == b * B for r in recs)]
+            for b in (inner if len(inner) <= 3 else rng.sample(inner, 3)):
+                i = [k for k, r in enumerate(recs) if r['off'] == b * B][0]
+                tests.append((idx, 'zero', b * B, B, i + 1, 'zeroblock', 0))
     tp = os.path.join(d, 'tests.txt'); op = os.path.join(d, 'reads.ndjson')
     with open(tp, 'w') as f:
         for t in tests: f.write('%d %s %d %d\n' % (t[0], t[1], t[2], t[3]))
